@@ -112,8 +112,13 @@ def _gen_file(rng, wellformed):
                 inl(addr + rng.below(max(1, size // 3)), addr + size, 0)
                 if rng.chance(2, 3):
                     rng_shuffle(rng, recs)
+                inl_at = len(lines)
                 for (dp, cl, cf, og, b) in recs:
                     lines.append("INLINE %d %d %d %d %s" % (dp, cl, cf, og, " ".join("%x %x" % (x, y - x) for x, y in b)))
+                inl_n = len(lines) - inl_at
+            else:
+                inl_at, inl_n = len(lines), 0
+            line_at = len(lines)
             # line records, ascending
             la = addr
             while la < addr + size:
@@ -125,6 +130,18 @@ def _gen_file(rng, wellformed):
                     la += rng.range(1, 4)           # a gap between line records
                 if deferred and rng.chance(1, 3):
                     lines.append(deferred.pop(0))
+            if inl_n and rng.chance(1, 3):
+                # dump_syms writes a FUNC's INLINE records before its line records; the format does not demand it: spread them among the line records
+                # (and behind them), each kind keeping its own order
+                ins = lines[inl_at:inl_at + inl_n]
+                rest = lines[line_at:]
+                merged = []
+                while ins or rest:
+                    if ins and (not rest or rng.chance(1, 2)):
+                        merged.append(ins.pop(0))
+                    else:
+                        merged.append(rest.pop(0))
+                lines[inl_at:] = merged
             if not wellformed and rng.chance(1, 4):
                 lines.append("INLINE 0 5 0 0 %x" % addr)      # malformed INLINE record: the FUNC cannot be parsed
             addr += size + rng.choice([0, 0, 1, 16])
